@@ -47,7 +47,7 @@ CLAIMED = {
         'reductions and replications (all shapes, axes, repetition patterns): gather and scatter-add with the same in-range index list are transposed maps, hence pb_sum (axis / all), pb_tile and pb_diag as coded are the adjoints of sum, tile and diag on every coefficient slice and, by bilinearity of the Cauchy pairing, at every order. On every run: the adjoint identity on the implementation for '
         'generated programs (F\'v from forward propagation alone, evaluation point != recording point, D<=4, P<=3, all orders), every xbar '
         'coefficient of rational scalar programs with buffers against the Coq model, UTPM.pb_dot / pb_inv / pb_solve / pb_lu / pb_cholesky / pb_qr called directly against the '
-        'executable rules (exact over Qc), UTPM.pb_sum / pb_tile / pb_diag called directly (fresh and accumulating) and through the tracer against the proved rules of Reduce.v (equality over Qc), and documented unsupported operations raising.',
+        'executable rules (exact over Qc), UTPM.pb_sum / pb_tile / pb_diag / pb_trace called directly (fresh and accumulating) and through the tracer against the proved rules of Reduce.v (equality over Qc), and documented unsupported operations raising.',
    note=NOTE_COMMON + 'The array-level rules are proved one by one (dot, outer, inv, solve, trace, transpose, det, logdet), not as part of the tape theorem; the pullbacks of svd, eig, full / wide qr, eigh with repeated eigenvalues and fft are covered by the adjoint-identity predicate only.',
    technique='Coq proof (potential-function invariant over the tape with heaps) + adjoint-identity predicate on the implementation + model correspondence',
    design='4/C03'),
@@ -161,10 +161,10 @@ CLAIMED = {
         '(ints, negative ints, slices with steps, Ellipsis, newaxis, tuples) yields duplicate-free in-range offsets (a view selects distinct '
         'parent cells); applying an index map to a polynomial acts on every (d,p) coefficient slice identically; writing through a view '
         'changes exactly the selected cells and reading back returns what was written; constant assignment sets order 0 and clears higher '
-        'orders; reshape never moves data; double transposition is the identity; sum over an axis and sum of everything are scatter-adds whose element j is the sum over the fibre of j, and the index lists of sum / tile / diag computed from the shapes are in range for every shape, axis and repetition pattern. On every run: sum(axis) / x.sum() / tile / diag (both directions) against the Coq model Reduce.v exactly on every coefficient slice; offsets selected by x[ix] (read off from '
+        'orders; reshape never moves data; double transposition is the identity; sum over an axis and sum of everything are scatter-adds whose element j is the sum over the fibre of j, and the index lists of sum / tile / diag computed from the shapes are in range for every shape, axis and repetition pattern. triu / tril of any n x m matrix and offset keep exactly the entries on the right side of the k-th diagonal, triu(k) + tril(k-1) = x, masking is idempotent. On every run: sum(axis) / x.sum() / tile / diag (both directions) / triu / tril (every offset, all orientations) / trace against the Coq models Reduce.v and Mask.v exactly on every coefficient slice; offsets selected by x[ix] (read off from '
         'self-describing data) against the Coq gather, exactly; slice.indices exhaustively on a small range; every operation against NumPy '
         'applied to each coefficient slice; shares_memory and write-through against NumPy.',
-   note=NOTE_COMMON + 'numpy.shares_memory is a runtime fact; triu/tril/trace/symvec/vecsym/conj/real/imag/fft are decided by the slice-wise NumPy predicate only.',
+   note=NOTE_COMMON + 'numpy.shares_memory is a runtime fact; conj/real/imag/fft are decided by the slice-wise NumPy predicate only.',
    technique='Coq proof (gather/scatter index maps) + exact correspondence of index maps + slice-wise NumPy predicate',
    design='4/C13'),
  'C14': dict(
